@@ -417,3 +417,5 @@ _quick("C09", "C09_backpressure", "the follower's live-stream reader (real Repli
 
 _quick("C10", "C10_stepdown", "a leader with a holder (E = 3 s) and a queued client request steps down through the real SLock.updateState to each of the five non-leader states; inside the step-down's wait (ReplicationManager.WaitServerSynced replaced by a harness function) one event happens: the holder's deadline passes (6 s through the real sweeps), a client LOCK on another key, the holder's client UNLOCK — nothing granted or released, STATE_ERROR to the client", [], reach=["end"], native=False)
 _quick("C11", "C11_lateack", "key of capacity 5 with a plain holder; ack-required lock A goes pending (1..2 followers, mode all), the persistence channel drained before or only after A's wait times out; exactly one error reply; ack-required lock B (same or another LockId) goes pending; 1..F positive acknowledgements naming A's record arrive late; then B's own flush report and F acknowledgements in both orders: B is answered SUCCED exactly once and only after its own acknowledgements", ["-witness", "1"], reach=["end", "a-timed-out", "late-acks"])
+
+_quick("C15", "C17_recycle", "(also under C17) 5..8 keys with values on a fast key table of 4 slots (some parked in the long-expiry table), all released, wheel swept, then 24 fresh keys one after the other: a key that was never given a value is never shown one (no value left on a key manager recycled through the pool)", ["-witness", "1"])
